@@ -55,7 +55,17 @@ func init() {
 		if err != nil {
 			return "", err
 		}
-		for _, p := range [][2]string{{"kvGetOrCreateCalls", "getOrCreateValue"}, {"kvCreateValueCalls", "createValue"},
+		// the lookup/create body: `getOrCreateValue`, or `tryGetOrCreateValue` when the former is only a retry loop around it
+		body := "getOrCreateValue"
+		if FindFunc(kvf, "indexKVStore", "tryGetOrCreateValue") != nil {
+			body = "tryGetOrCreateValue"
+			if err := emit("kvRetryLoopCalls", FindFunc(kvf, "indexKVStore", "getOrCreateValue"), "indexKVStore.getOrCreateValue"); err != nil {
+				return "", err
+			}
+		} else {
+			sb.WriteString("\ndef kvRetryLoopCalls : List String := []\n")
+		}
+		for _, p := range [][2]string{{"kvGetOrCreateCalls", body}, {"kvCreateValueCalls", "createValue"},
 			{"kvPrepareFlushCalls", "PrepareFlush"}, {"kvFlushCalls", "Flush"}, {"kvGetValueFromMemCalls", "GetValueFromMem"}} {
 			if err := emit(p[0], FindFunc(kvf, "indexKVStore", p[1]), "indexKVStore."+p[1]); err != nil {
 				return "", err
